@@ -104,7 +104,6 @@ func LogLen() int { return Fab.nlog }
 //
 //go:norace
 func LogSince(from int) []Packet {
-	vrt.RaceIOAcquire()
 	var out []Packet
 	for n := Fab.head; n != nil; n = n.next {
 		if n.p.Seq >= from {
@@ -335,6 +334,7 @@ type UDPConn struct {
 	q      []dgram
 	closed bool
 	driver bool
+	sync   uint64
 	// FailWrites: next n writes fail (fault script); <0: all
 	FailWrites int
 }
@@ -393,12 +393,14 @@ func (c *UDPConn) ReadFromUDP(b []byte) (int, *net.UDPAddr, error) {
 	if len(c.q) == 0 {
 		return 0, nil, errClosed
 	}
-	vrt.RaceIOAcquire()
+	if !c.driver {
+		vrt.RaceFDSync(&c.sync)
+	}
 	d := c.q[0]
 	c.q = c.q[1:]
 	n := ncopy(b, d.data)
 	// what the syscall layer tells the detector about a real read
-	if n > 0 {
+	if n > 0 && !c.driver {
 		vrt.RaceWriteRange(unsafe.Pointer(&b[0]), n)
 	}
 	return n, cloneUDPAddr(d.from), nil
@@ -444,11 +446,13 @@ func (c *UDPConn) WriteToUDP(b []byte, addr *net.UDPAddr) (int, error) {
 	if len(b) > 65507 {
 		return 0, errors.New("write udp: message too long")
 	}
-	if len(b) > 0 {
-		vrt.RaceReadRange(unsafe.Pointer(&b[0]), len(b))
+	if !c.driver {
+		vrt.RaceFDSync(&c.sync)
+		if len(b) > 0 {
+			vrt.RaceReadRange(unsafe.Pointer(&b[0]), len(b))
+		}
 	}
 	data := nclone(b)
-	vrt.RaceIORelease()
 	src := c.source()
 	addLog(Packet{Proto: "udp", From: hostPort(src.IP, src.Port), To: hostPort(addr.IP, addr.Port), Data: data, Driver: c.driver})
 	if dst := findUDP(addr.IP, addr.Port); dst != nil {
@@ -480,6 +484,9 @@ func (c *UDPConn) Close() error {
 	if c.closed {
 		return errClosed
 	}
+	if !c.driver {
+		vrt.RaceFDSync(&c.sync)
+	}
 	c.closed = true
 	return nil
 }
@@ -506,7 +513,6 @@ type Datagram struct {
 //
 //go:norace
 func (c *UDPConn) TakeAll() []Datagram {
-	vrt.RaceIOAcquire()
 	var out []Datagram
 	for _, d := range c.q {
 		out = append(out, Datagram{Data: nclone(d.data), From: hostPort(d.from.IP, d.from.Port)})
@@ -557,6 +563,7 @@ type TCPConn struct {
 	NWrites    int
 	Dialled    bool
 	driver     bool
+	sync       uint64
 }
 
 type TCPListener struct {
@@ -565,6 +572,7 @@ type TCPListener struct {
 	q      []*TCPConn
 	closed bool
 	driver bool
+	sync   uint64
 }
 
 type tcpReadWait struct{ c *TCPConn }
@@ -589,7 +597,10 @@ func (c *TCPConn) Read(p []byte) (int, error) {
 	if len(p) == 0 {
 		return 0, nil
 	}
-	vrt.RaceIOAcquire()
+	if !c.driver {
+		vrt.RaceFDSync(&c.sync)
+		vrt.RaceIOAcquire()
+	}
 	total := 0
 	for len(c.rq) > 0 && total < len(p) {
 		seg := c.rq[0]
@@ -613,7 +624,7 @@ func (c *TCPConn) Read(p []byte) (int, error) {
 			break
 		}
 	}
-	if total > 0 {
+	if total > 0 && !c.driver {
 		vrt.RaceWriteRange(unsafe.Pointer(&p[0]), total)
 	}
 	return total, nil
@@ -634,11 +645,14 @@ func (c *TCPConn) Write(p []byte) (int, error) {
 	if c.peer.closed || c.reset {
 		return 0, errors.New("write: broken pipe")
 	}
-	if len(p) > 0 {
-		vrt.RaceReadRange(unsafe.Pointer(&p[0]), len(p))
+	if !c.driver {
+		vrt.RaceFDSync(&c.sync)
+		vrt.RaceIORelease()
+		if len(p) > 0 {
+			vrt.RaceReadRange(unsafe.Pointer(&p[0]), len(p))
+		}
 	}
 	data := nclone(p)
-	vrt.RaceIORelease()
 	c.peer.rq = append(c.peer.rq, data)
 	addLog(Packet{Proto: "tcp", From: c.laddr.String(), To: c.raddr.String(), Data: data, Conn: c.id, Driver: c.driver})
 	return len(p), nil
@@ -648,6 +662,9 @@ func (c *TCPConn) Write(p []byte) (int, error) {
 func (c *TCPConn) Close() error {
 	if c.closed {
 		return errClosed
+	}
+	if !c.driver {
+		vrt.RaceFDSync(&c.sync)
 	}
 	c.closed = true
 	c.peer.rclosed = true
@@ -703,7 +720,6 @@ func (c *TCPConn) RemoteString() string { return c.raddr.String() }
 //
 //go:norace
 func (c *TCPConn) Drain() []byte {
-	vrt.RaceIOAcquire()
 	var out []byte
 	for _, seg := range c.rq {
 		for _, b := range seg {
@@ -735,6 +751,9 @@ func (l *TCPListener) Accept() (net.Conn, error) {
 	vrt.Gate(acceptWait{l}, "tcp-accept "+l.key, true)
 	if len(l.q) == 0 {
 		return nil, errClosed
+	}
+	if !l.driver {
+		vrt.RaceFDSync(&l.sync)
 	}
 	c := l.q[0]
 	l.q = l.q[1:]
